@@ -971,3 +971,177 @@ def presized_from_hint(rep, R, facts):
                 rep.bad(R, f'{d}|{nm}', f'`{d}` sizes a container with `{nm}` from a `size_hint()`: the hint is an untrusted claim of the data source (a huge one aborts with "capacity overflow"; '
                         f'for toml::Map only under preserve_order, where the map allocates eagerly)', facts.loc(b, c))
     rep.check(R, 'pre-sizing calls', True, f'{n} with_capacity / reserve calls, none sized by a size_hint', '')
+
+
+def no_reparse(rep, R, g):
+    """a recursive construct must not be parsed twice from one position: with nesting the repeats multiply (2^depth) and a document nested well below the limit no longer finishes.
+    Decided on the grammar terms: wherever the parser backtracks and goes on from the same position (the next branch of an alt, what follows an opt / repeat / separated whose
+    last attempt failed, a peek), the abandoned attempt must not be able to fail *after* completing a recursive parser that the continuation then starts again."""
+    from .rules_c05 import simple_cycles
+    from .parsemodel import short
+    edges = {}
+    for d, t in g.terms.items():
+        if t is not None:
+            for f in g.mentions(t):
+                if f in g.terms:
+                    edges.setdefault(d, {})[f] = 1
+    recs = set()
+    for cyc in simple_cycles(edges):
+        recs |= set(cyc)
+    if not recs:
+        rep.incomplete(R, 'recursive parsers', 'no recursive parser found: the mention graph is broken')
+        return
+    nm = g.nullable_map()
+    nullable = lambda t: g._nullable_t(t, nm)
+    sr_memo = {}
+
+    def start_refs(t, seen=frozenset()):
+        """recursive parsers that may be started at the position where t starts"""
+        op = t['op']
+        if op in ('ref', 'call'):
+            f = t['fn']
+            out = {f} & recs
+            if f in g.terms and g.terms[f] is not None and f not in seen:
+                if f in sr_memo:
+                    out |= sr_memo[f]
+                else:
+                    r = start_refs(g.terms[f], seen | {f})
+                    if not seen:
+                        sr_memo[f] = r
+                    out |= r
+            if op == 'call':
+                for a in t['args']:
+                    if a is not None:
+                        out |= start_refs(a, seen)
+            return out
+        if op == 'seq':
+            out = set()
+            for x in t['items']:
+                out |= start_refs(x, seen)
+                if not nullable(x):
+                    break
+            return out
+        if op == 'alt':
+            return set().union(*[start_refs(x, seen) for x in t['items']]) if t['items'] else set()
+        if op in ('opt', 'rep', 'map', 'checkrec', 'peek', 'not'):
+            return start_refs(t['p'], seen)
+        if op == 'sep':
+            return start_refs(t['p'], seen) | (start_refs(t['sep'], seen) if nullable(t['p']) else set())
+        if op == 'and_then':
+            return start_refs(t['p'], seen)
+        if op == 'dispatch':
+            out = set() if t.get('bound') else start_refs(t['scrut'], seen)
+            for a in t['arms']:
+                out |= start_refs(a['p'], seen)
+            return out
+        return set()
+
+    def fallible(t, seen=frozenset()):
+        """may fail with an error that backtracks"""
+        op = t['op']
+        if op == 'tok':
+            return not (t['min'] == 0)
+        if op == 'lit':
+            return len(t['bytes']) > 0
+        if op in ('eof', 'fail', 'not'):
+            return True
+        if op == 'empty':
+            return False
+        if op in ('opt',):
+            return False
+        if op == 'peek':
+            return fallible(t['p'], seen)
+        if op == 'seq':
+            return any(fallible(x, seen) for x in t['items'])
+        if op == 'alt':
+            return all(fallible(x, seen) for x in t['items'])
+        if op in ('rep', 'sep'):
+            return t['min'] != 0 and fallible(t['p'], seen)
+        if op == 'map':
+            if t.get('kind') == 'cut':
+                return False
+            if t.get('kind') in ('verify', 'try_map', 'verify_map', 'parse_to'):
+                return True
+            return fallible(t['p'], seen)
+        if op in ('checkrec', 'and_then'):
+            return True
+        if op == 'dispatch':
+            return True
+        if op == 'ref':
+            f = t['fn']
+            if f in g.terms and g.terms[f] is not None and f not in seen:
+                return fallible(g.terms[f], seen | {f})
+            return True
+        return True
+
+    def faf(t, seen=frozenset()):
+        """recursive parsers that t may complete from its start position and still fail afterwards"""
+        op = t['op']
+        if op == 'ref':
+            f = t['fn']
+            if f in g.terms and g.terms[f] is not None and f not in seen:
+                return faf(g.terms[f], seen | {f})
+            return set()
+        if op == 'seq':
+            out = set()
+            items = t['items']
+            for i, x in enumerate(items):
+                if any(fallible(y) for y in items[i + 1:]):
+                    out |= start_refs(x)
+                out |= faf(x, seen)
+                if not nullable(x):
+                    break
+            return out
+        if op == 'alt':
+            return set().union(*[faf(x, seen) for x in t['items']]) if t['items'] else set()
+        if op in ('opt',):
+            return set()
+        if op in ('rep', 'sep'):
+            return faf(t['p'], seen) if t['min'] != 0 else set()
+        if op == 'map':
+            if t.get('kind') in ('verify', 'try_map', 'verify_map', 'parse_to'):
+                return start_refs(t['p']) | faf(t['p'], seen)
+            return faf(t['p'], seen)
+        if op in ('checkrec', 'peek'):
+            return faf(t['p'], seen)
+        if op == 'and_then':
+            return start_refs(t['p']) | faf(t['p'], seen)
+        if op == 'dispatch':
+            return set().union(*[faf(a['p'], seen) for a in t['arms']]) if t['arms'] else set()
+        return set()
+    n = 0
+    for d, t in sorted(g.terms.items()):
+        if t is None:
+            continue
+        loc = g.facts.loc(g.facts.body(d)) if g.facts.has_body(d) else ''
+        for x in g.subterms(t):
+            op = x['op']
+            if op == 'alt':
+                items = x['items']
+                for i in range(len(items)):
+                    later = set().union(*[start_refs(y) for y in items[i + 1:]]) if items[i + 1:] else set()
+                    n += 1
+                    hz = faf(items[i]) & later
+                    if hz:
+                        rep.bad(R, f'{short(d)}|alt', f'`{short(d)}`: a branch of an alternative can fail after it has parsed {sorted(short(h) for h in hz)}, and a later branch parses it again from the '
+                                f'same position: nested {sorted(short(h) for h in hz)[0]}s are parsed 2^depth times', loc)
+            elif op == 'seq':
+                items = x['items']
+                for i, y in enumerate(items):
+                    inner = y
+                    while inner.get('op') == 'map' and inner.get('kind') != 'cut':
+                        inner = inner['p']
+                    if inner.get('op') in ('opt', 'rep', 'sep'):
+                        n += 1
+                        rest = {'op': 'seq', 'items': items[i + 1:]}
+                        hz = faf(inner['p']) & start_refs(rest)
+                        if hz:
+                            rep.bad(R, f'{short(d)}|{inner["op"]}', f'`{short(d)}`: the last attempt of an optional / repeated part can fail after it has parsed {sorted(short(h) for h in hz)}, and '
+                                    f'what follows parses it again from the same position: nested {sorted(short(h) for h in hz)[0]}s are parsed 2^depth times', loc)
+                    if inner.get('op') in ('peek', 'not'):
+                        n += 1
+                        hz = start_refs(inner['p'])
+                        if hz:
+                            rep.bad(R, f'{short(d)}|peek', f'`{short(d)}` looks ahead with a recursive parser {sorted(short(h) for h in hz)}: what it saw is then parsed again', loc)
+    rep.check(R, 'retry points', n >= 60, f'{n} retry points (alternatives, optional / repeated parts, look-aheads) over {len(recs)} recursive parsers {sorted(short(r) for r in recs)}: none re-parses one',
+              f'only {n} retry points found in the grammar terms')
